@@ -125,9 +125,26 @@ func strFormat(L *LState) int {
 	for i := 2; i <= top; i++ {
 		args[i-2] = L.Get(i)
 	}
-	npat := strings.Count(str, "%") - strings.Count(str, "%%")
+	npat := countFormatItems(str)
 	L.Push(LString(fmt.Sprintf(str, args[:intMin(npat, len(args))]...)))
 	return 1
+}
+
+// countFormatItems returns the number of conversion specifications in a format
+// string, i.e. the number of arguments it consumes; "%%" is not one.
+func countFormatItems(str string) int {
+	n := 0
+	for i := 0; i < len(str); i++ {
+		if str[i] != '%' {
+			continue
+		}
+		if i+1 < len(str) && str[i+1] == '%' {
+			i++
+			continue
+		}
+		n++
+	}
+	return n
 }
 
 func strGsub(L *LState) int {
